@@ -33,7 +33,8 @@ def conversion(ctx, groups, int_order, nfun):
     nbits = sum(len(g) for g in groups)
     bit_order = list(range(nbits))
     rng.shuffle(bit_order)
-    M = Mgr(ctx, f'bdd_to_mdd groups={groups} int_order={int_order}', nbits, bit_order)
+    aged = rng.random() < 0.3
+    M = Mgr(ctx, f'bdd_to_mdd groups={groups} int_order={int_order} aged={aged}', nbits, bit_order, aged=aged)
     s = M.s
     held = []
     for _ in range(nfun):
@@ -46,8 +47,24 @@ def conversion(ctx, groups, int_order, nfun):
         held.append(u)
     before = {u: M.tt(u) for u in held}
     dv = {100 + k: (int_order[k], list(g)) for k, g in enumerate(groups)}
+    # a third of the conversions run with dynamic reordering ENABLED on the BDD manager,
+    # the threshold so low that any node creation would raise the request (C15c)
+    dyn = rng.random() < 0.34
+    if dyn:
+        M.op('configure', True)
+        M.op('set_last_len', rng.choice([0, 1, 2]))
+        thr = M.b._last_len
     r = s.op(0, 'bdd_to_mdd', 'm0', dv)
     case = M.case()
+    if dyn:
+        ctx.count('conversions-dynamic')
+        if s.last_result() == 'err:needs_reordering':
+            ctx.violation('C15:signal', 'bdd_to_mdd let the reordering signal escape', case)
+            return
+        if M.b._last_len != thr:
+            ctx.violation('C15:threshold-changed',
+                          f'the reordering threshold is {M.b._last_len} after the conversion, was {thr}', case)
+        M.op('configure', False)
     ctx.case((tuple(map(tuple, groups)), tuple(int_order), tuple(before.values())), bool(held))
     ctx.count('conversions')
     if r is None:
